@@ -618,6 +618,20 @@ class Interproc:
                 ret["ref"] = rf
             elif ret["ref"] != rf:
                 ret["ref"] = None
+            # a boolean result that stands for facts about the parameters (`fn fits(c: &Cell) -> bool { c.a <= 255 && c.b <= 255 }`)
+            if ret.get("guard", "?") is not None:
+                gd = None
+                if v is not None and v[0] == "b" and isinstance(v[1], tuple) and v[1] and v[1][0] == "guarded":
+                    def pr_ok(x):
+                        return x[0] == "iv" or (x[0] == "n" and (x[1] is None or self._ret_term_ok(b, x[1])))
+                    gd = (tuple(c_ for c_ in v[1][1] if pr_ok(c_[0]) and pr_ok(c_[1])), tuple(c_ for c_ in v[1][2] if pr_ok(c_[0]) and pr_ok(c_[1])))
+                cur_g = ret.get("guard", "?")
+                if gd is None:
+                    ret["guard"] = None
+                elif cur_g == "?":
+                    ret["guard"] = gd
+                else:
+                    ret["guard"] = (tuple(c_ for c_ in cur_g[0] if c_ in gd[0]), tuple(c_ for c_ in cur_g[1] if c_ in gd[1]))
             # option-ness
             op = None
             if v is not None and v[0] == "opt":
@@ -1268,6 +1282,20 @@ class Interproc:
                 av = ctx.args[ai][0]
                 if av[0] == "ref" and av[1] is not None and not isinstance(av[1], str):
                     return ("ref", av[1], av[2] + v[2][1:])
+        gd_ = ret.get("guard", "?")
+        if gd_ not in (None, "?") and (gd_[0] or gd_[1]) and dt is not None and self.f.types[dt]["k"] == "bool":
+            inst_ = []
+            for lst in gd_:
+                o_ = []
+                for (a_, b_, c_) in lst:
+                    a2, b2 = self.instantiate_val(an, ctx, a_), self.instantiate_val(an, ctx, b_)
+                    if a2 is not None and b2 is not None and a2[0] in ("n", "iv") and b2[0] in ("n", "iv"):
+                        o_.append((a2, b2, c_))
+                inst_.append(tuple(o_))
+            if inst_[0] or inst_[1]:
+                st.kill(d, whole_local=not d[1])
+                st.sym[d] = ("b", ("guarded", inst_[0], inst_[1]))
+                return "stored"
         op_ = ret.get("optpay", "?")
         if ret.get("opt") is not False and op_ not in (None, "?") and dt is not None and self.f.types[dt]["k"] == "adt" and self.f.types[dt]["adt"] in GOOD_VARIANT:
             good = GOOD_VARIANT[self.f.types[dt]["adt"]][0]
